@@ -92,7 +92,7 @@ func c22Gen(t *rapid.T) c22Case {
 	}
 	n := rapid.IntRange(0, 4).Draw(t, "mutations")
 	for i := 0; i < n; i++ {
-		switch rapid.IntRange(0, 14).Draw(t, "mop") {
+		switch rapid.IntRange(0, 15).Draw(t, "mop") {
 		case 0, 1: // replace a token
 			f := strings.Fields(text)
 			if len(f) == 0 {
@@ -172,7 +172,7 @@ func c22Gen(t *rapid.T) c22Case {
 			tails := []string{"/", "{", "{ /", "{ a /", "{ '", "{ \"", "{ /*", "{ //", "'", "\"", "/*", "/[", "/\\", "(?=", "<", "%", "[", "{ \\"}
 			text = strings.TrimRight(text, " \n") + " " + tails[rapid.IntRange(0, len(tails)-1).Draw(t, "tail")]
 		case 14: // a snippet that moves line/column bookkeeping, put at a token boundary
-			snippets := []string{"/* é€😀 */", "'é'", "'€€'", "# ü😀\n", "{ \"\\\n\" }", "{ '\\\n' }", "{ \"\\\\\n\" }", "{ /* \n */ }", "{ // }\n }", "{ \"\n\" }", "/\\\n/", "\"\\\n\"", "'\\\n'", "\r\n", "\r", "\t", "\xef\xbb\xbf", "{ `\n` }", "{{ \"}\\\n\" }}"}
+			snippets := []string{"/*", "x/*", "/* \n", "'", "\"", "{", "a1 = /x{a2}?/\na2 = /y{a1}/\nt1: /{a1}/\n", "b1 = /{b1}/\nt2: /{b1}+/\n", "c1 = /p{c2}/\nc2 = /q{c3}*/\nc3 = /r{c1}|s/\nt3: /{c2}/\n", "/* é€😀 */", "'é'", "'€€'", "# ü😀\n", "{ \"\\\n\" }", "{ '\\\n' }", "{ \"\\\\\n\" }", "{ /* \n */ }", "{ // }\n }", "{ \"\n\" }", "/\\\n/", "\"\\\n\"", "'\\\n'", "\r\n", "\r", "\t", "\xef\xbb\xbf", "{ `\n` }", "{{ \"}\\\n\" }}"}
 			var at []int
 			for i := 0; i < len(text); i++ {
 				if text[i] == ' ' || text[i] == '\n' {
@@ -182,6 +182,15 @@ func c22Gen(t *rapid.T) c22Case {
 			if len(at) > 0 {
 				a := at[rapid.IntRange(0, len(at)-1).Draw(t, "snippetAt")]
 				text = text[:a] + " " + snippets[rapid.IntRange(0, len(snippets)-1).Draw(t, "snippet")] + text[a:]
+			}
+		case 15: // lexer lines behind the section header: named patterns that refer to each other, odd rules
+			lines := []string{"a1 = /x{a2}?/\na2 = /y{a1}/\nt1: /{a1}/\n", "b1 = /{b1}/\nt2: /{b1}+/\n", "c1 = /p{c2}/\nc2 = /q{c3}*/\nc3 = /r{c1}|s/\nt3: /{c2}/\n",
+				"d1 = /{nosuch}/\nt4: /{d1}/\n", "t5: /()/\n", "t6: /a{0}/\n", "t7: /[^\\x00-\\x{10ffff}]/\n", "t8: /(?i)\\p{Lu}+/ -1\n", "<*> t9: /z/\n", "%x sx;\n<sx> { t10: /q/ }\n", "t11: /a/ (class)\nt12: /a/\n", "invalid_token: /\\?+/\n", "eoi: /\\$/\n", "error:\n"}
+			if i := strings.Index(text, ":: lexer"); i >= 0 {
+				if j := strings.IndexByte(text[i:], '\n'); j >= 0 {
+					at := i + j + 1
+					text = text[:at] + lines[rapid.IntRange(0, len(lines)-1).Draw(t, "lexerLines")] + text[at:]
+				}
 			}
 		case 12, 13: // set an option right behind the header: every option meets every grammar shape
 			opt := c22Options[rapid.IntRange(0, len(c22Options)-1).Draw(t, "option")]
@@ -285,7 +294,7 @@ func trimText(s string) string {
 func TestC22(t *testing.T) {
 	p := &prop[c22Case]{
 		ID:   "C22",
-		Rule: "grammar texts: 70% a file from the repository (5 shipped grammars and every compiler/gen/syntax testdata grammar, «» markers removed), 20% one of four hand-written feature-dense seeds (one with a conflict that needs lalr(2) under every table option, one with maxLookahead-bounded lookaheads over %prec rules), 10% a generated grammar (C17 generator), with 0..4 mutations: replace/insert a token taken from any corpus file or a list of hostile tokens, delete a byte range, duplicate/delete a line, splice lines from another grammar, flip an option value, overwrite a raw byte, truncate (anywhere, behind a delimiter, or ending in an opening delimiter), set one of the 46 known options to one of 13 values behind the header, insert one of 19 snippets that move line/column bookkeeping (non-ASCII comments and terminals, escaped and raw newlines inside quoted strings of code blocks, CR, BOM) at a token boundary; Params CheckOnly/Verbose/DebugTables in all 8 combinations. compiler.Compile must return (panics and log.Fatal are trapped; 60 s watchdog); every status.Error must have 0<=Offset<=EndOffset<=len(text) with Line/Column consistent with the offset; a tm.SyntaxError likewise (offset, line). Thorough adds native coverage-guided fuzzing (FuzzC22). Non-trivial: the text parses and produces a semantic diagnostic or reaches table generation; distinct by text.",
+		Rule: "grammar texts: 70% a file from the repository (5 shipped grammars and every compiler/gen/syntax testdata grammar, «» markers removed), 20% one of four hand-written feature-dense seeds (one with a conflict that needs lalr(2) under every table option, one with maxLookahead-bounded lookaheads over %prec rules), 10% a generated grammar (C17 generator), with 0..4 mutations: replace/insert a token taken from any corpus file or a list of hostile tokens, delete a byte range, duplicate/delete a line, splice lines from another grammar, flip an option value, overwrite a raw byte, truncate (anywhere, behind a delimiter, or ending in an opening delimiter), set one of the 46 known options to one of 13 values behind the header, insert lexer lines behind `:: lexer` (named patterns that refer to themselves or to each other, empty and degenerate patterns, start conditions, class/keyword pairs, rules for eoi/invalid_token/error), insert one of 28 snippets (unterminated comments, strings and code blocks in the middle of the text; snippets) that move line/column bookkeeping (non-ASCII comments and terminals, escaped and raw newlines inside quoted strings of code blocks, CR, BOM) at a token boundary; Params CheckOnly/Verbose/DebugTables in all 8 combinations. compiler.Compile must return (panics and log.Fatal are trapped; 60 s watchdog); every status.Error must have 0<=Offset<=EndOffset<=len(text) with Line/Column consistent with the offset; a tm.SyntaxError likewise (offset, line). Thorough adds native coverage-guided fuzzing (FuzzC22). Non-trivial: the text parses and produces a semantic diagnostic or reaches table generation; distinct by text.",
 		Quick: 24000, Thorough: 160000,
 		Gen:      c22Gen,
 		Check:    c22Check,
